@@ -101,7 +101,43 @@ Fixpoint mon_run (m : mon) (i : nat) (tr : trace) : mon :=
   | e :: r => mon_run (mon_step m i e) (S i) r
   end.
 
+(** ** Overlapping commands on one service are outside the property's quantifier
+
+    C02 speaks of requests interleaved with the steps of THE deploy command "over any sequence of SUCCESSIVE
+    redeploys".  When a second command on a service is issued while an earlier one on that service has not returned
+    (e.g. a rollout deploy that fetched the service object before an overlapping deploy replaced it re-installs the
+    old object afterwards: observation D14), the requests of that service answered from then on are not judged. *)
+Record ovl := mkOvl {
+  ov_busy : list (nat * str);      (* commands in progress with the service they address *)
+  ov_taint : list str;             (* services on which commands have overlapped *)
+  ov_names : list (nat * str);     (* service object -> name *)
+  ov_rsvc : list (nat * nat);      (* request -> service object it was routed to *)
+  ov_skip : list nat               (* requests not judged *)
+}.
+
+Definition ovl_step (o : ovl) (e : event) : ovl :=
+  match e_k e with
+  | KSvcName s n => mkOvl (ov_busy o) (ov_taint o) (nset (ov_names o) s n) (ov_rsvc o) (ov_skip o)
+  | KIssue c _ name =>
+    let clash := existsb (fun p => str_eqb (snd p) name) (ov_busy o) in
+    mkOvl (nset (ov_busy o) c name) (if clash then name :: ov_taint o else ov_taint o) (ov_names o) (ov_rsvc o) (ov_skip o)
+  | KReturn c _ => mkOvl (filter (fun p => negb (Nat.eqb (fst p) c)) (ov_busy o)) (ov_taint o) (ov_names o) (ov_rsvc o) (ov_skip o)
+  | KRouted r (Some s) => mkOvl (ov_busy o) (ov_taint o) (ov_names o) (nset (ov_rsvc o) r s) (ov_skip o)
+  | KRespond r _ _ =>
+    let tainted := match nget (ov_rsvc o) r with
+                   | Some s => match nget (ov_names o) s with
+                               | Some n => existsb (str_eqb n) (ov_taint o)
+                               | None => false end
+                   | None => false end in
+    if tainted then mkOvl (ov_busy o) (ov_taint o) (ov_names o) (ov_rsvc o) (r :: ov_skip o) else o
+  | _ => o
+  end.
+
+Definition not_judged (tr : trace) : list nat := ov_skip (fold_left ovl_step tr (mkOvl [] [] [] [] [])).
+
 (** failures: (event index, code, request, matches the recorded finding) *)
-Definition c02_check (tr : trace) : list (nat * N * nat * bool) := rev (m_fail (mon_run mon0 0 tr)).
+Definition c02_check (tr : trace) : list (nat * N * nat * bool) :=
+  let skip := not_judged tr in
+  filter (fun f => negb (nmem (snd (fst f)) skip)) (rev (m_fail (mon_run mon0 0 tr))).
 
 Definition c02_ok (tr : trace) : bool := match c02_check tr with [] => true | _ => false end.
